@@ -35,7 +35,7 @@ def binary_to_triangle(filename: str, compress: bool | None = None) -> Triangle:
     filepath = Path(filename).expanduser()
     extension = filepath.suffix
     # Try to deduce compression status if not provided explicitly
-    if not compress:
+    if compress is None:
         if extension == ".trib":
             compress = False
         elif extension == ".tribc":
